@@ -138,6 +138,18 @@ def directed(rng, quick):
                     ops += ['k0', rng.choice('pq'), rng.choice('pq')]
                 ops += ['w1:' + hx(rbytes(rng, 1)), rng.choice('pq')]
                 yield payload('self-script:' + which, ds, ops)
+    # --- scale: a backlog that needs many read callbacks (small read size) before the hang-up may be reported
+    for kind in KINDS:
+        for doc in (False,):
+            for n in ((8, 16, 17, 33) if quick else (8, 15, 16, 17, 18, 31, 32, 33, 40, 64)):
+                for rk in (1, 2):
+                    nbytes = min(n * rk, 60)
+                    npolls = (nbytes + rk - 1) // rk + 3
+                    early = rng.choice([0, 1, 3])
+                    ops = ['ar0', 'w0:' + hx(rbytes(rng, nbytes))] + polls(rng, early) + ['k0'] + polls(rng, npolls)
+                    yield payload('backlog%d' % n, [desc(kind, True, doc, rk)], ops)
+                    ops = ['ar0', 'ar1', 'w0:' + hx(rbytes(rng, nbytes)), 'w1:' + hx(rbytes(rng, nbytes)), 'k0', 'k1'] + polls(rng, npolls)
+                    yield payload('backlog%d' % n, [desc(kind, True, doc, rk), desc(kind, False, False, rk)], ops)
     # --- write readiness on sockets; write callback removing itself / the read side / another descriptor
     for conn in (True, False):
         for ws in ([], ['x0w'], ['x0r'], ['x0w', 'a0w'], ['x1r'], ['x0r', 'a0r']):
@@ -250,4 +262,17 @@ TECHNIQUE = 'Coq proof on hand-written executable model + extracted-model/implem
 DESIGN_REF = 'DESIGN.md §4 C16 (b)'
 
 
-gen_poller_cases = gen_cases
+
+def gen_poller_cases(rng, tier):
+    """all scenarios on the default fds, plus a sample of them on the boundary fd numbers: 0,1,2 (the descriptors
+    replace stdin/stdout/stderr for the duration of the case) and FD_SETSIZE-3 .. FD_SETSIZE-1"""
+    quick = tier == 'quick'
+    for c in gen_cases(rng, tier):
+        yield c
+        t = c.split(' ')
+        nd = t.index('/') - 2
+        if nd <= 3 and rng.random() < (0.12 if quick else 0.3):
+            base = rng.choice([0, 0, 3 - nd, 1024 - nd, 1024 - nd, 1021])
+            if base + nd <= 3 or (base >= 200 and base + nd <= 1024):
+                t[1] = t[1] + '@%d' % base
+                yield ' '.join(t)
